@@ -278,6 +278,10 @@ func runHistory(run *lib.Run, rng *lib.Rand, nops, nkeys int, replay []kvhist.Ho
 		h.Sweep(nkeys)
 	}
 	term := fmt.Sprintf("%s %s [%s]", ctor, h.CoqOps(), strings.Join(h.Obs, ";"))
+	if !unversioned {
+		// the same final state through the range endpoint at every version
+		term += " " + h.RangeSweep("kv")
+	}
 	merges := 0
 	for _, o := range h.Ops {
 		if o.Op == "child" && len(o.Parents) > 1 {
